@@ -3,6 +3,7 @@ package chk
 import (
 	"fmt"
 	"go/constant"
+	"go/token"
 	"go/types"
 	"sort"
 
@@ -149,6 +150,9 @@ func ruleNoCarriedStateMsg(scope func(p *Prog, l *Ledger, rule string) []*ssa.Fu
 			name := FnName(fn)
 			for _, li := range loopsOf(fn) {
 				ord := 0
+				if fixedLocalTableLoop(li) {
+					continue // steps of a computation laid out as a literal table (units, tags), not elements of the data
+				}
 				for _, ins := range li.header.Instrs {
 					ph, ok := ins.(*ssa.Phi)
 					if !ok {
@@ -197,3 +201,58 @@ func ruleNoCarriedStateMsg(scope func(p *Prog, l *Ledger, rule string) []*ssa.Fu
 }
 
 var _ = constant.MakeBool
+
+// fixedLocalTableLoop: the loop is a range (or counted loop) over a literal table built in the function itself:
+// its exit test compares the index with a constant or with the length of a slice of a local array.
+func fixedLocalTableLoop(li *loopInfo) bool {
+	iff, ok := li.header.Instrs[len(li.header.Instrs)-1].(*ssa.If)
+	if !ok {
+		return false
+	}
+	bo, ok := iff.Cond.(*ssa.BinOp)
+	if !ok || bo.Op != token.LSS {
+		return false
+	}
+	idxOK := false
+	switch x := bo.X.(type) {
+	case *ssa.Phi:
+		idxOK = x.Block() == li.header
+	case *ssa.BinOp:
+		if ph, ok := x.X.(*ssa.Phi); ok && ph.Block() == li.header {
+			idxOK = true
+		}
+	}
+	if !idxOK {
+		return false
+	}
+	if _, isC := constInt(bo.Y); isC {
+		// range over an array literal
+		for b := range li.blocks {
+			for _, ins := range b.Instrs {
+				if ia, ok := ins.(*ssa.IndexAddr); ok && (ia.Index == bo.X) {
+					if al, ok := ia.X.(*ssa.Alloc); ok && !li.blocks[al.Block()] {
+						return true
+					}
+				}
+			}
+		}
+		return false
+	}
+	c, ok := bo.Y.(*ssa.Call)
+	if !ok {
+		return false
+	}
+	if bi, ok := c.Call.Value.(*ssa.Builtin); !ok || bi.Name() != "len" {
+		return false
+	}
+	sl, ok := c.Call.Args[0].(*ssa.Slice)
+	if !ok || sl.Low != nil || sl.High != nil {
+		return false
+	}
+	al, ok := sl.X.(*ssa.Alloc)
+	if !ok || li.blocks[al.Block()] {
+		return false
+	}
+	_, isArr := al.Type().Underlying().(*types.Pointer).Elem().Underlying().(*types.Array)
+	return isArr
+}
